@@ -20,8 +20,12 @@ LEVEL_TEXT = ('Theorems (Props/C08.v): read(write(f)) presents exactly the conte
               'translated dtypes/strides), write(read(write f)) = write f (C08_rewrite_idempotent), the reader\'s date/time conversion equals the '
               'specification on whole hours (C08_time_flags), the writer\'s translated two-digit-year expression followed by the reader\'s century rule is '
               'the identity on 1970001..2069366 (C08_date_roundtrip), hours survive /10000 and rescaling (C08_hour_roundtrip). Tie T: Gen/Camx.v. '
-              'Tie H: library writer bytes == spec encoder on the model\'s input (incl. the writer\'s own end-date derivation), library reader == reader model.')
-LEVEL_NOTE = ('Trusted: Coq kernel+vm_compute, py2coq, harness. Met formats, lateral_boundary and landuse are held by correspondence and generic record '
+              'Tie H: library writer bytes == spec encoder on the model\'s input (incl. the writer\'s own end-date derivation), library reader == reader model. '
+              'LATERAL BOUNDARY files (Model/Lbdy.v): C08_lbdy_read_write, C08_lbdy_rewrite_idempotent, C08_lbdy_begin_flags, C08_lbdy_end_flags at full '
+              'strength (the reader as repaired by fe376a5); the re-write at a year end is refuted with a vm_compute witness that replays on the library '
+              '(C08_lbdy_year_end_rewrite_refuted = finding lb-enddate-year-rollover). Tie H: constructor WL of Corr/C08.v (in-memory '
+              'file -> writer (generated edge definitions, derived end dates) -> reader -> writer, every stage against the model).')
+LEVEL_NOTE = ('Trusted: Coq kernel+vm_compute, py2coq, harness. Met formats and landuse are held by correspondence and generic record '
               'framing theorems only. Known findings: writer-derived end date at a year end; single-step met files; 1x1 wind grids.')
 TECHNIQUE = 'Coq proof (codec/reader round trip, date arithmetic over translated expressions) + differential correspondence'
 
@@ -39,11 +43,21 @@ def gen(rng, n, tier):
             out.append(dict(kind='uamiv-' + c['name'] + ('-noetflag' if derive else ''), content=c, derive=derive))
         else:
             c = MC.gen_any(rng, tier=tier)
-            out.append(dict(kind='met-' + c['fmt'], content=c, write=True, reread=True))
+            out.append(dict(kind='lbdy' if c['fmt'] == 'lateral_boundary' else 'met-' + c['fmt'], content=c, write=True, reread=True))
+    # lateral-boundary files evaluated in Coq (Model/Lbdy.v): a dedicated stream on top of gen_any's share
+    for i in range(max(1, n // 8)):
+        c = M.gen_lb(rng, tier, rollover=0.5 if tier == 'search' else 0.3)
+        out.append(dict(kind='lbdy', content=c, write=True, reread=True))
+    # one-cell-wide grids (nx or ny = 1) on the writer path, judged in Python (known finding region 18)
+    for i in range(max(1, n // 30)):
+        c = M.gen_lb_thin(rng, tier)
+        out.append(dict(kind='lbdy-thin', content=c, write=True, reread=True))
     return out
 
 
 def impl(case):
+    if MC.is_lb(case):
+        return MC.run_lb_w(case)
     if case['kind'].startswith('met-'):
         return MC.run_met(case)
     import numpy as np
@@ -95,6 +109,16 @@ def coq_term(case, obs):
     if 'raises' in obs:
         return None
     c = case['content']
+    if MC.is_lb(case) and MC.lb_thin(c):
+        return None      # python-judged: the malformed edge record of the writer is outside Model/Lbdy.v's lb_wf
+    if MC.is_lb(case):
+        w1, mm, w2 = obs.get('w1') or {}, obs.get('mm') or {}, obs.get('w2') or {}
+        ok = mm.get('status') == 'ok'
+        v, tf, etf = M.coq_lview(c, mm.get('view') if ok else None)
+        return '(WL %s %s %s %s %s %s %s %s %s %s %s)' % (
+            M.coq_lbdy(c), MC.lb_hours(c), C.cbool(w1.get('status') == 'ok'), C.zlist(w1.get('words') or []),
+            C.cbool(ok), v, tf, etf, C.cbool(not MC.lb_py_check(case, obs)), C.cbool(w2.get('status') == 'ok'),
+            C.zlist(w2.get('words') or []))
     if case['kind'].startswith('met-'):
         wr = obs.get('wr') or {}
         return '(R8 %s %s %s %s)' % (C.zlist(M.encode(c)), C.zll(M.records(c)), C.cbool(wr.get('status') == 'ok'),
@@ -108,7 +132,20 @@ def coq_term(case, obs):
 def py_check(case, obs):
     if 'raises' in obs:
         return dict(s_ok=False, why='in-domain write/read raised: %s %s' % (obs.get('raises'), obs.get('msg', '')[:120]),
-                    region=MC.region_of(case['content']) if case['kind'].startswith('met-') else 0)
+                    region=MC.region_of(case['content']) if (case['kind'].startswith('met-') and not MC.is_lb(case)) else 0)
+    if MC.is_lb(case) and MC.lb_thin(case['content']):
+        why = MC.lb_thin_check(case, obs)
+        reg = 1 if MC._year_end_23(case['content']) else 18
+        return dict(s_ok=not why, region=reg, why='; '.join(why[:3]))
+    if MC.is_lb(case):
+        why = MC.lb_py_check(case, obs)
+        for k, what in (('w1', 'library writer on the in-memory file'), ('mm', 'library reader on the written file'),
+                        ('w2', 'library writer on the re-read file')):
+            st = (obs.get(k) or {}).get('status')
+            if st != 'ok':
+                why.append('%s: %s (%s)' % (what, st, (obs.get(k) or {}).get('err')))
+                break
+        return dict(s_ok=not why, region=0, why='; '.join(why[:3]))
     if not case['kind'].startswith('met-'):
         return dict(s_ok=True)
     c = case['content']
@@ -132,7 +169,7 @@ def py_check(case, obs):
 
 
 def nontrivial(case, obs):
-    if case['kind'].startswith('met-'):
+    if case['kind'].startswith('met-') or MC.is_lb(case):
         return obs.get('mm', {}).get('status') == 'ok'
     return bool(obs.get('open_ok'))
 
